@@ -39,6 +39,7 @@ func TestMain(m *testing.M) {
 func TestPropGrammar(t *testing.T) { hx.Check(t, "grammar", GenGrammar, ExecGrammar) }
 func TestPropBytes(t *testing.T)   { hx.Check(t, "bytes", GenBytes, ExecBytes) }
 func TestPropInject(t *testing.T)  { hx.Check(t, "inject", GenInject, ExecInject) }
+func TestPropLoop(t *testing.T)    { hx.Check(t, "loop", GenLoop, ExecLoop) }
 
 // TestEnum: every string up to the bound over the alphabet of significant bytes, split
 // among the shards by index. Strings longer than 6 are counted but not hashed (tens of
@@ -210,7 +211,7 @@ func FuzzSplit(f *testing.F) {
 
 func TestReplay(t *testing.T) {
 	hx.Replay(t, map[string]func(json.RawMessage) (hx.Verdict, error){
-		"grammar": hx.Exec(ExecGrammar), "bytes": hx.Exec(ExecBytes), "inject": hx.Exec(ExecInject)})
+		"grammar": hx.Exec(ExecGrammar), "bytes": hx.Exec(ExecBytes), "inject": hx.Exec(ExecInject), "loop": hx.Exec(ExecLoop)})
 }
 
 // TestSelf checks the harness against itself (no goatcore code involved): every generated
